@@ -100,32 +100,39 @@ where
     };
     let sp0 = sponge(cfg, 1);
     let (mut sp_p, mut sp_v) = (sp0.clone(), sp0.clone());
-    let proof: Vec<LinCodePCProof<SF, RoMT>> = match w.open(&[0], 0, &mut sp_p) {
+    // every polynomial of the configuration is opened in one call: each proof is judged against its own codeword
+    let idx: Vec<usize> = (0..w.lps.len()).collect();
+    let proof: Vec<LinCodePCProof<SF, RoMT>> = match w.open(&idx, 0, &mut sp_p) {
         Ok(p) => p,
         Err(e) => return Verdict::viol(&format!("open-err:{}", e), e.clone()),
     };
-    let (n_rows, n_cols, n_ext, _) = w.comms[0].commitment().parts();
-    let t = match verif_hooks::calculate_t::<SF>(sec, distance, n_ext) {
-        Ok(t) => t,
-        Err(_) => return Verdict::viol("t-error", "calculate_t failed for the scheme's own parameters"),
-    };
-    let want = exact_t(sec, distance, n_ext as u128, 60000).map(|x| x.min(n_ext));
-    if Some(t) != want {
-        return Verdict::viol("t-not-minimal", format!("t = {} for codeword length {}, exact minimum {:?}", t, n_ext, want));
+    if proof.len() != idx.len() {
+        return Verdict::viol("wrong-shape", format!("{} proofs for {} polynomials", proof.len(), idx.len()));
     }
-    let (paths, pv, cols, _) = proof[0].verif_parts();
-    if cols.len() != t || paths.len() != t {
-        return Verdict::viol("wrong-number-of-columns", format!("proof opens {} columns with {} paths, the security level needs t = {} (codeword length {})", cols.len(), paths.len(), t, n_ext));
-    }
-    if pv.len() != n_cols || cols.iter().any(|c| c.len() != n_rows) {
-        return Verdict::viol("wrong-shape", format!("v has {} entries (n_cols = {}), column lengths {:?} (n_rows = {})", pv.len(), n_cols, cols.iter().map(|c| c.len()).collect::<Vec<_>>(), n_rows));
-    }
-    if paths.iter().any(|p| p.leaf_index >= n_ext) {
-        return Verdict::viol("index-out-of-codeword", "an opened position lies outside the codeword");
+    for i in idx.iter().copied() {
+        let (n_rows, n_cols, n_ext, _) = w.comms[i].commitment().parts();
+        let t = match verif_hooks::calculate_t::<SF>(sec, distance, n_ext) {
+            Ok(t) => t,
+            Err(_) => return Verdict::viol("t-error", "calculate_t failed for the scheme's own parameters"),
+        };
+        let want = exact_t(sec, distance, n_ext as u128, 60000).map(|x| x.min(n_ext));
+        if Some(t) != want {
+            return Verdict::viol("t-not-minimal", format!("t = {} for codeword length {}, exact minimum {:?}", t, n_ext, want));
+        }
+        let (paths, pv, cols, _) = proof[i].verif_parts();
+        if cols.len() != t || paths.len() != t {
+            return Verdict::viol("wrong-number-of-columns", format!("proof {} opens {} columns with {} paths, the security level needs t = {} (codeword length {})", i, cols.len(), paths.len(), t, n_ext));
+        }
+        if pv.len() != n_cols || cols.iter().any(|c| c.len() != n_rows) {
+            return Verdict::viol("wrong-shape", format!("v has {} entries (n_cols = {}), column lengths {:?} (n_rows = {})", pv.len(), n_cols, cols.iter().map(|c| c.len()).collect::<Vec<_>>(), n_rows));
+        }
+        if paths.iter().any(|p| p.leaf_index >= n_ext) {
+            return Verdict::viol("index-out-of-codeword", "an opened position lies outside the codeword");
+        }
     }
     let pt = w.points[0].1.clone();
-    let v = w.lps[0].evaluate(&pt);
-    match w.check(&[0], &pt, vec![v], &proof, &mut sp_v) {
+    let v: Vec<SF> = idx.iter().map(|i| w.lps[*i].evaluate(&pt)).collect();
+    match w.check(&idx, &pt, v, &proof, &mut sp_v) {
         Ok(true) => Verdict::Hold,
         r => Verdict::viol("rejected", format!("{:?}", r)),
     }
